@@ -28,9 +28,9 @@ theorem chLookup_of_mem_sorted : ∀ (ch : List (Nat × Prim R × Nat)), Sorted 
 
 /-- the loop over the changes, with the bytes it writes: the backend grows by the frames, and the row of
     every change is the offset at which its frame begins -/
-theorem writeChanges_bytes (fmt : R → List UInt8) (L : Layout) (start : Nat) :
+theorem writeChanges_bytes (fmt : R → List UInt8) (ids : List (List UInt8)) (L : Layout) (start : Nat) :
     ∀ (ch : List (Nat × Prim R × Nat)) (w w' : Written (Prim R)),
-      writeChanges (params fmt) L start ch w = (w', .ok ()) → Sorted ch →
+      writeChanges (params fmt ids) L start ch w = (w', .ok ()) → Sorted ch →
       (∀ c ∈ ch, L.recLen c.1 = (frameOf fmt c).length) →
       ∀ pre : List UInt8, pre.length = w.len →
         (pre ++ framesOf fmt ch).length = w'.len ∧
@@ -58,7 +58,7 @@ theorem writeChanges_bytes (fmt : R → List UInt8) (L : Layout) (start : Nat) :
         have hpre1 : (pre ++ frameOf fmt (i, v0, g0)).length = w.len + L.recLen i := by
           simp [hpre, hl0]
         obtain ⟨a1, a2⟩ := ih _ _ h hs.2 (fun c hc => hL c (by simp [hc])) (pre ++ frameOf fmt (i, v0, g0)) hpre1
-        obtain ⟨f1, f2, _, _⟩ := writeChanges_frame (params fmt) L start _ _ _ _ h hs.2
+        obtain ⟨f1, f2, _, _⟩ := writeChanges_frame (params fmt ids) L start _ _ _ _ h hs.2
         simp only at f1 f2
         have hfr : pre ++ framesOf fmt ((i, v0, g0) :: rest) = pre ++ frameOf fmt (i, v0, g0) ++ framesOf fmt rest := by
           simp [framesOf]
@@ -379,7 +379,7 @@ theorem xrefDict_facts (fmt : R → List UInt8) (pr : List UInt8 → Option R) (
 theorem objFrame_length_pos (id gen : Nat) (body : List UInt8) : 0 < (objFrame id gen body).length := by
   simp [objFrame, kwObj, kwEndobj]; omega
 
-theorem frameOf_of_ok (fmt : R → List UInt8) (id g : Nat) (v : Prim R) (h : (params fmt).ok v = true) :
+theorem frameOf_of_ok (fmt : R → List UInt8) (ids : List (List UInt8)) (id g : Nat) (v : Prim R) (h : (params fmt ids).ok v = true) :
     ∃ body, serialize fmt v = .ok body ∧ frameOf fmt (id, v, g) = objFrame id g body := by
   simp only [params, Out.isOk] at h
   cases hs : serialize fmt v with
@@ -405,7 +405,7 @@ theorem serialize_stream_ok (fmt : R → List UInt8) (pr : List UInt8 → Option
 
 /-- what a successful `saveB` did, in terms of the bytes -/
 structure SavedBytes (fmt : R → List UInt8) (b b' : BDoc R) (i : SaveInfo) : Prop where
-  doc : save (params fmt) (layoutOf fmt b) b.doc = (b'.doc, .ok i)
+  doc : save (params fmt b.ids) (layoutOf fmt b) b.doc = (b'.doc, .ok i)
   ids : b'.ids = b.ids
   bytes : b'.bytes = b.bytes ++ revisionBytes fmt b i
   len : b'.bytes.length = b'.doc.st.len
@@ -421,10 +421,10 @@ structure SavedBytes (fmt : R → List UInt8) (b b' : BDoc R) (i : SaveInfo) : P
         (fmtNat i.xid ++ [32, 48, 32] ++ kwObj ++ [10] ++ body ++ kwEndobj ++ [10]) ++ tailBytes i
 
 theorem saveB_ok_iff (fmt : R → List UInt8) (b b' : BDoc R) (i : SaveInfo) (h : saveB fmt b = (b', .ok i)) :
-    save (params fmt) (layoutOf fmt b) b.doc = (b'.doc, .ok i) ∧ b'.ids = b.ids ∧
+    save (params fmt b.ids) (layoutOf fmt b) b.doc = (b'.doc, .ok i) ∧ b'.ids = b.ids ∧
       b'.bytes = b.bytes ++ revisionBytes fmt b i := by
   unfold saveB at h
-  generalize hs : save (params fmt) (layoutOf fmt b) b.doc = res at h
+  generalize hs : save (params fmt b.ids) (layoutOf fmt b) b.doc = res at h
   obtain ⟨d', o⟩ := res
   cases o <;> simp only [Prod.mk.injEq, Out.ok.injEq, reduceCtorEq, and_false] at h
   obtain ⟨rfl, rfl⟩ := h
@@ -457,10 +457,10 @@ theorem saveB_spec (fmt : R → List UInt8) (pr : List UInt8 → Option R) (d0 :
     have hlook := chLookup_of_mem_sorted _ pf.inv.sorted _ hc
     simp only at hlook
     obtain ⟨_, hok, _⟩ := k5 id v g hlook
-    obtain ⟨body, _, hfr⟩ := frameOf_of_ok fmt id g v hok
+    obtain ⟨body, _, hfr⟩ := frameOf_of_ok fmt b.ids id g v hok
     simp only [layoutOf, hlook, hfr]
     have := objFrame_length_pos id g body; omega
-  obtain ⟨b1, b2⟩ := writeChanges_bytes fmt _ _ _ _ _ hw pf.inv.sorted hLrec b.bytes (by rw [hlen, pf.len_same])
+  obtain ⟨b1, b2⟩ := writeChanges_bytes fmt b.ids _ _ _ _ _ hw pf.inv.sorted hLrec b.bytes (by rw [hlen, pf.len_same])
   -- the cross-reference stream object can be written
   have hxf := xrefDict_facts fmt pr b.doc.tr (prep b.doc).infoRef b.ids i hbd
   obtain ⟨txt, hxs, _⟩ := serialize_stream_ok fmt pr (xrefDict b.doc.tr b.ids (prep b.doc).infoRef i) (rowsData i) hxf.ser
@@ -486,7 +486,7 @@ theorem saveB_spec (fmt : R → List UInt8) (pr : List UInt8 → Option R) (d0 :
   · intro id v g hc
     obtain ⟨off, rest, c1, c2, c3⟩ := b2 id v g hc
     obtain ⟨_, hok, _⟩ := k5 id v g hc
-    obtain ⟨body, hbody, hfr⟩ := frameOf_of_ok fmt id g v hok
+    obtain ⟨body, hbody, hfr⟩ := frameOf_of_ok fmt b.ids id g v hok
     have hne : (prep b.doc).xid ≠ id := by intro heq; rw [← heq, pf.xid_free] at hc; simp at hc
     obtain ⟨r, ra, rb⟩ := r2 id _ (by rw [set_get_ne _ _ _ _ hne]; exact c2)
     simp only [rowOf, Option.some.injEq] at ra; subst ra
